@@ -595,9 +595,56 @@ def rule_cost_targets(chk, prog):
             r.ok(vec, fn.loc(pb[0]))
 
 
+def rule_final_step(chk, prog):
+    from ..astq import writes
+    from ..rules.guards import path_condition, atoms, entails, show
+    r = chk.rule("FINAL-STEP-CHARGED", "AStarPathPrivate::search copies a node's cost unchanged (`node.g = bestNode->g`, no cost of the step) only for "
+                 "connection-pin bookkeeping vertices -- under a condition that entails isConnectionPin() or isDummyPinHelper() -- never for the "
+                 "step into the target itself: routes that differ in the length of, or the bend into, their last segment must be compared with "
+                 "it; the turn pruning is skipped (`pruneTurns`) when a free end point has restricted directions", floor=3)
+    fn = prog.fn("Avoid::AStarPathPrivate::search")
+    k = 0
+    for lhs, node, op in writes(fn):
+        if op != "=" or norm(lhs) != "node.g" or norm(node["ch"][1]) not in ("bestNode.g",):
+            continue
+        k += 1
+        r.count()
+        pc = path_condition(fn, node, inline=False)
+        ok = entails(pc, ("atom", "node.inf.id.isConnectionPin()")) or entails(pc, ("atom", "node.inf.id.isDummyPinHelper()"))
+        (r.ok if ok else r.bad)("free step at line %s" % node.get("l"), fn.loc(node), "" if ok else
+                                "a step is taken at no cost under %s, which does not require the vertex to be a connection-pin vertex" % show(pc)[-160:])
+    if k < 2:
+        raise AnalysisBroken("search: the zero-cost steps for connection pins were not recognised")
+    # turn pruning is guarded by pruneTurns, which is cleared when src or tar has restricted directions
+    r.count()
+    bad = None
+    prune_ifs = []
+    for n in fn.nodes():
+        if n.get("k") == "IfStmt" and any(x.get("k") == "MemberExpr" and str(x.get("ref", "")).endswith("orthogVisPropFlags") for x in walk(n["cond"])):
+            prune_ifs.append(n)
+    if not prune_ifs:
+        raise AnalysisBroken("search: turn-pruning tests not found")
+    for n in prune_ifs:
+        pc = path_condition(fn, n, inline=False)
+        if not entails(pc, ("atom", "pruneTurns")):
+            bad = bad or (n, "a turn-pruning test is reached without `pruneTurns`")
+    clears = [node for lhs, node, op in writes(fn) if norm(lhs) == "pruneTurns" and norm(node["ch"][1]) == "false"]
+    if not clears:
+        bad = bad or (prune_ifs[0], "`pruneTurns` is never cleared")
+    else:
+        ats = " ".join(atoms(path_condition(fn, clears[0], inline=False)))
+        if "visDirections" not in ats or "Avoid::ConnDirAll" not in ats:
+            bad = bad or (clears[0], "`pruneTurns` is cleared under a condition that does not look at the end point's permitted directions")
+        init = [x for x in fn.nodes() if x.get("k") == "VarDecl" and x.get("name") == "ends"]
+        if not init or not ("src" in norm(init[0].get("init")) and "tar" in norm(init[0].get("init"))):
+            bad = bad or (clears[0], "the restricted-direction test does not cover both src and tar")
+    (r.bad("turn pruning off for restricted end points", fn.loc(bad[0]), bad[1]) if bad else r.ok("turn pruning off for restricted end points", fn.loc(clears[0])))
+
+
 def run(chk):
     prog = chk.load()
     from .c04 import rule_astar
+    chk.guard(rule_final_step, chk, prog)
     chk.guard(rule_cost_targets, chk, prog)
     chk.guard(rule_segment_list, chk, prog)
     chk.guard(rule_astar, chk, prog)
